@@ -797,3 +797,48 @@ func init() {
 		Why: "the XOR uses pad[i] for body[i] except a shifted index",
 		Edits: []Edit{{File: "crypt.go", Old: `		p.Body[i] = b ^ pad[i]`, New: `		p.Body[i] = b ^ pad[len(pad)-1-i]`}}})
 }
+
+func init() {
+	// ---- C06 ------------------------------------------------------------------------------
+	addMutant(Mutant{Name: "c06-flag-not-mirrored", Props: []string{"C06"}, Rule: "R-MIRROR", KeySub: "",
+		Why: "the reply header omits SetHeaderFlag: replies to cleartext or single-connect requests carry flag octet 0",
+		Edits: []Edit{{File: "handlers.go", Old: `		SetHeaderFlag(r.header.Flags),
+`, New: ``}}})
+	addMutant(Mutant{Name: "c06-minor-version-hardcoded", Props: []string{"C06"}, Rule: "R-MIRROR", KeySub: "mirror:Version",
+		Why: "the reply always carries minor version 0",
+		Edits: []Edit{{File: "handlers.go", Old: `		SetHeaderVersion(r.header.Version),`, New: `		SetHeaderVersion(Version{MajorVersion: MajorVersion, MinorVersion: MinorVersionDefault}),`}}})
+	addMutant(Mutant{Name: "c06-header-stored-only-on-success", Props: []string{"C06", "C08"}, Rule: "R-MIRROR", KeySub: "stored-header-advances",
+		Why: "the stored header is advanced only after a successful write",
+		Edits: []Edit{{File: "handlers.go", Old: `	r.header = *header
+	p := NewPacket(`, New: `	p := NewPacket(`},
+			{File: "handlers.go", Old: `	return r.Write(p)
+}
+
+// Write will write the packet`, New: `	n, err := r.Write(p)
+	if err == nil {
+		r.header = *header
+	}
+	return n, err
+}
+
+// Write will write the packet`}}})
+	addMutant(Mutant{Name: "c06-handler-uses-write", Props: []string{"C06"}, Rule: "R-MIRROR", KeySub: "bypass",
+		Why: "a reference handler sends a hand-made packet through Response.Write",
+		Edits: []Edit{{File: "cmds/server/config/aaa.go", Old: `func (a *defaultAuthorizer) Handle(response tq.Response, request tq.Request) {
+	response.Reply(`, New: `func (a *defaultAuthorizer) Handle(response tq.Response, request tq.Request) {
+	if request.Header.SeqNo > 200 {
+		b, _ := tq.NewAuthorReply(tq.SetAuthorReplyStatus(tq.AuthorStatusError)).MarshalBinary()
+		response.Write(tq.NewPacket(tq.SetPacketHeader(tq.NewHeader(tq.SetHeaderType(tq.Authorize))), tq.SetPacketBody(b)))
+		return
+	}
+	response.Reply(`}}})
+	addMutant(Mutant{Name: "c06-restart-for-error-too", Props: []string{"C06"}, Rule: "R-MIRROR", KeySub: "sequence",
+		Why: "ERROR replies also reset the sequence number to 1",
+		Edits: []Edit{{File: "handlers.go", Old: `		if t.Status == AuthenStatusRestart {`, New: `		if t.Status == AuthenStatusRestart || t.Status == AuthenStatusError {`}}})
+	addMutant(Mutant{Name: "c06-seq-computed-in-8-bits", Props: []string{"C06"}, Rule: "R-MIRROR", KeySub: "sequence",
+		Why: "the next sequence number is computed in 8 bits: 255+1 wraps to 0",
+		Edits: []Edit{{File: "handlers.go", Old: `	seqNo := int(r.header.SeqNo)`, New: `	seqNo := int(uint8(r.header.SeqNo) + 1 - 1)`}}})
+	addMutant(Mutant{Name: "c06-session-id-from-context", Props: []string{"C06"}, Rule: "R-MIRROR", KeySub: "mirror:SessionID",
+		Why: "the reply takes the session id from a fresh random value",
+		Edits: []Edit{{File: "handlers.go", Old: `		SetHeaderSessionID(r.header.SessionID),`, New: `		SetHeaderSessionID(SessionID(uint32(r.header.SessionID)|0)+SessionID(len(r.writers))),`}}})
+}
